@@ -200,7 +200,7 @@ def attribute(F, items):
 # def-level queries straight from the MIR bodies (all crates, including generic bodies)
 
 
-def who_calls(F, callee_q, crates=None):
+def who_calls(F, callee_q, crates=None, raw=False):
     """[(fn, bb, term)] of call sites whose resolved or declared callee is callee_q."""
     out = []
     for fn in F.fn_list:
@@ -211,10 +211,10 @@ def who_calls(F, callee_q, crates=None):
                 f = t["f"]
                 if f["k"] == "def" and (f.get("r") == callee_q or f["d"] == callee_q):
                     out.append((fn, bb, t))
-    return attribute(F, out)
+    return out if raw else attribute(F, out)
 
 
-def who_constructs(F, adt_q, variant=None, crates=None, skip_macros=True):
+def who_constructs(F, adt_q, variant=None, crates=None, skip_macros=True, raw=False):
     out = []
     for fn in F.fn_list:
         if crates and fn.crate.name not in crates:
@@ -225,10 +225,10 @@ def who_constructs(F, adt_q, variant=None, crates=None, skip_macros=True):
                 if skip_macros and (fn.mac and fn.mac not in ("desugar:QuestionMark",)):
                     continue
                 out.append((fn, bb, si, s))
-    return attribute(F, out)
+    return out if raw else attribute(F, out)
 
 
-def who_writes_field(F, adt_q, field, crates=None):
+def who_writes_field(F, adt_q, field, crates=None, raw=False):
     from . import prov
     out = []
     for fn in F.fn_list:
@@ -244,10 +244,10 @@ def who_writes_field(F, adt_q, field, crates=None):
                 pl = rv["p"]
                 if prov.field_write(F, fn.body, pl, adt_q) == field:
                     out.append((fn, bb, si, s))
-    return attribute(F, out)
+    return out if raw else attribute(F, out)
 
 
-def who_reads_field(F, adt_q, field, crates=None):
+def who_reads_field(F, adt_q, field, crates=None, raw=False):
     from . import prov
     out = []
     for fn in F.fn_list:
@@ -277,4 +277,4 @@ def who_reads_field(F, adt_q, field, crates=None):
             for x in t["xs"]:
                 if x["k"] in ("copy", "move") and prov.field_write(F, fn.body, x, adt_q) == field:
                     out.append((fn, bb, None, t))
-    return attribute(F, out)
+    return out if raw else attribute(F, out)
